@@ -1,14 +1,14 @@
 #!/bin/sh
-# usage: tools/seed_intake2.sh <prop> <offset>  -- second-round intake: /tmp/out2-<prop>/m<i> becomes seeded/<prop>-m<i+offset>
-P=$1; OFF=${2:-3}
+# usage: tools/seed_intake2.sh <prop> <offset> [round]  -- later-round intake: /tmp/out<round>-<prop>/m<i> becomes seeded/<prop>-m<i+offset> (round defaults to 2)
+P=$1; OFF=${2:-3}; R=${3:-2}
 mkdir -p /var/tmp/incoming
-rm -rf /var/tmp/incoming/out2-$P
-cp -r /tmp/out2-$P /var/tmp/incoming/out2-$P || exit 2
-git -C /repo worktree remove --force /tmp/wt2-$P 2>/dev/null
-rm -rf /tmp/out2-$P
+rm -rf /var/tmp/incoming/out$R-$P
+cp -r /tmp/out$R-$P /var/tmp/incoming/out$R-$P || exit 2
+git -C /repo worktree remove --force /tmp/wt$R-$P 2>/dev/null
+rm -rf /tmp/out$R-$P
 RACE=""
-[ "$P" = "C10" ] && RACE="-race"
-for d in /var/tmp/incoming/out2-$P/m*; do
+[ "$P" = "C10" ] && RACE="-race"; [ "$P" = "C11" ] && RACE="-race"
+for d in /var/tmp/incoming/out$R-$P/m*; do
   i=$(basename $d | tr -d m)
   m="m$((i+OFF))"
   J=$(/verif/tools/seed_confirm.sh $d $RACE)
